@@ -137,5 +137,5 @@ def run_stage(ctx, prefixes, thorough=False, cap=None):
     trace = st_cluster.merge(ctx, traces, "rs-trace.ndjson")
     stats = st_cluster.account(ctx, trace, nontrivial_fn=lambda sc, body: any(x["ev"] == "Evict" for x in body))
     ctx.stage("reclaimsizes-real-runs", exported_initial_states=total, run=len(scens), **stats)
-    vlib.validate_traces(ctx, st_cluster.MODULE, trace, st_cluster.invariants(prefixes), tuple(prefixes), timeout=3000, heap="10g",
+    vlib.validate_traces_parallel(ctx, st_cluster.MODULE, trace, st_cluster.invariants(prefixes), tuple(prefixes), chunks=8, timeout=3000, heap="10g",
                          sig_detail=st_cluster.sig_detail)
